@@ -54,7 +54,11 @@ func OracleC18(tr *Trace) Verdict {
 			if si.StIsLeader != si.IsLeader {
 				add(Viol{At: s.T, Sig: "C18 status-isleader-differs-from-IsLeader", Msg: fmt.Sprintf("%s at %v (quiescent): Status().IsLeader=%v, IsLeader()=%v", who, s.T, si.StIsLeader, si.IsLeader)})
 			}
-			if si.Stopped && !si.InStop && !si.Started && (si.State != "STOPPED" || si.IsLeader) {
+			if si.Stopped && si.ByCancel && !si.InStop && !si.Started && si.IsLeader {
+				add(Viol{At: s.T, Sig: "C18 leader-after-context-cancellation",
+					Msg: fmt.Sprintf("%s#%d at %v: still IsLeader()==true although the context passed to Start was cancelled and the shutdown it implies is complete", tr.ID(si.Inst), si.Obj, s.T)})
+			}
+			if si.Stopped && !si.ByCancel && !si.InStop && !si.Started && (si.State != "STOPPED" || si.IsLeader) {
 				add(Viol{At: s.T, Sig: "C18 not-stopped-after-stop", Msg: fmt.Sprintf("%s at %v: a stop call returned nil, yet State=%s IsLeader=%v", who, s.T, si.State, si.IsLeader)})
 			}
 			if si.GaugeSet && !si.InStop && (si.Gauge == 1) != si.IsLeader {
@@ -76,12 +80,20 @@ func OracleC18(tr *Trace) Verdict {
 						if w.ReturnSeq > s.Seq {
 							continue
 						}
-						if w.Ver == c.Up.Live {
+						// only writes of this very term count: those that carry the term's token (an answer that
+						// arrives late can found a term on a record that has been replaced since - also by another
+						// record of the same instance - and that term's "latest successful write" is its own)
+						lv, ok := DecodeLib(w.Payload)
+						if !ok || lv.Token != c.Token || w.Ver == nil {
+							continue
+						}
+						if latest == nil {
+							// the founding write (Create, or the Update of a takeover)
 							latest = w
 							okRev = map[uint64]bool{}
 							continue
 						}
-						if latest == nil || w.Kind != OpUpdate || w.IssueSeq < c.FromSeq {
+						if w.Kind != OpUpdate || w.IssueSeq < c.FromSeq {
 							continue
 						}
 						switch rtt := w.ReturnT - w.IssueT; {
